@@ -91,6 +91,9 @@ func c15Scenarios() []c15Scenario {
 		{Name: "S5-includes-added-by-an-edit", Files: map[string]string{"main.journal": strings.Replace(main, "include a.journal\ninclude b.journal\n", "; no includes yet\n; none\n", 1), "a.journal": c15IncA, "b.journal": c15IncB},
 			Root: true, Open: []string{"main.journal"},
 			Reqs: append(append([]wire.Msg{{Op: "change", Doc: "main.journal", Text: main}}, reqs("main.journal", 8)...), sweep("main.journal", main)...)},
+		// the two files with shared names are included one level down (by an included file)
+		{Name: "S6-nested-includes", Files: map[string]string{"main.journal": strings.Replace(main, "include a.journal\ninclude b.journal\n", "include mid.journal\n; second line\n", 1), "mid.journal": "include a.journal\ninclude b.journal\n", "a.journal": c15IncA, "b.journal": c15IncB},
+			Open: []string{"main.journal"}, Reqs: append(reqs("main.journal", 8), sweep("main.journal", main)...)},
 		{Name: "S4-three-open-documents", Files: files, Root: true, Open: []string{"main.journal", "a.journal", "b.journal"},
 			Reqs: append([]wire.Msg{{Op: "wsymbol", Text: ""}, {Op: "wsymbol", Text: "s"}, {Op: "completion", Doc: "a.journal", Line: 5, Char: 4}, {Op: "references", Doc: "b.journal", Line: 5, Char: 6}, {Op: "hover", Doc: "a.journal", Line: 4, Char: 8}}, sweep("a.journal", c15IncA)...)},
 	}
